@@ -56,7 +56,7 @@ LABEL_SCHEMES = [
 
 
 def n_cases(tier):
-    return 600 if tier == "quick" else 8000
+    return 2000 if tier == "quick" else 8000
 
 
 def _unit_values(rng, n, stream):
